@@ -156,6 +156,15 @@ package core
 //@   modifies s.cacheSize, s.batchRegions
 
 
+// GetStoreIds: exactly the stores of the region's peers.
+//@ pure hasPeerOn(r *RegionInfo, id uint64) = exists k :: 0 <= k && k < len(r.meta.Peers) && pstore(r.meta.Peers[k]) == id
+//@ func (*RegionInfo).GetStoreIds
+//@   props C10 C11
+//@   requires r != nil && r.meta != nil
+//@   ensures [exactly-the-peer-stores] result != nil && (forall id uint64 :: {in(result, id)} in(result, id) == hasPeerOn(r, id))
+//@   loop 1 invariant forall id uint64 :: {in(stores, id)} in(stores, id) == (exists k :: 0 <= k && k <= rangeindex && pstore(peers[k]) == id)
+//@   modifies nothing
+
 // ================= C06: the region cache never regresses and never holds overlapping regions =================
 // Abstract view of the key-ordered index: bthas[t][x] says that item x (a *regionItem) is stored in the B-tree t.
 // keyord embeds the total order of keys into the reals ("" is the least key; an empty END key means +infinity).
